@@ -679,7 +679,8 @@ func (env *SpecEnv) call(n *ast.CallExpr) Val {
 		return vBool(sAnd(sEq(slcArr(a.T), slcArr(b.T)), sEq(slcOff(a.T), slcOff(b.T)), sEq(slcLen(a.T), slcLen(b.T))))
 	case "sameArray":
 		need(2)
-		return vBool(sEq(slcArr(arg(0).T), slcArr(arg(1).T)))
+		// two nil slices (array 0) share no memory
+		return vBool(sAnd(sEq(slcArr(arg(0).T), slcArr(arg(1).T)), sNot(sEq(slcArr(arg(0).T), "0"))))
 	case "disjoint":
 		// disjoint(a, b): different arrays, or non-overlapping capacity ranges
 		need(2)
